@@ -24,7 +24,43 @@ from props.base import corpus_for
 
 ID = 'C08'
 LEAN_MODULES = ['PybtexModel.Props.C08']
-THEOREMS = {}
+THEOREMS = {
+    'C08_tables': 'the regenerated constants the model depends on: every entry of textutils.terminators is one character; whitespace_re is \\s+',
+    'C08_mk_sem': 'construction from nested parts: the constructor (drop empties, unpack Text, merge similar neighbours) keeps the string of pairs; every built object is in normal form',
+    'C08_grouping_laws': 'how parts were grouped or nested affects neither equality nor rendering: associativity, empty parts, nested Text, adjacent similar texts; equal denotations of the arguments give == objects',
+    'C08_eq_iff_sem': 'equality is total and, on objects, a == b iff same class and same string of pairs (uniqueness of normal forms)',
+    'C08_add': 'concatenation acts as string concatenation on the pairs',
+    'C08_append': 'append puts the text inside the outermost markup of the receiver, markup stays attached',
+    'C08_join': 'join acts as str.join on the pairs',
+    'C08_len': 'len is the number of pairs, str their characters',
+    'C08_slice': 'text[i:j] is the Python slice of the string of pairs for ALL integers i, j (and missing bounds); markup stays attached',
+    'C08_index': 'text[i] is the one-pair slice, IndexError exactly when out of range',
+    'C08_case': 'upper/lower act pointwise, keep every markup stack, never change protected text; they commute with slicing and concatenation as objects',
+    'C08_capfirst': 'capfirst = self[:1].upper() + self[1:] on the pairs; Protected untouched',
+    'C08_capitalize': 'capitalize = self[:1].upper() + self[1:].lower() on the pairs; Protected untouched',
+    'C08_add_period': 'add_period appends a period inside the outermost markup iff the text is non-empty and does not end in a terminator',
+    'C08_split': 'split at a one-character separator is the list split at the unprotected occurrences; protected text and symbols are never split; join . split keeps the characters',
+    'C08_prefix_suffix_contains': 'startswith / endswith / in are sound for the string of pairs (a reported match is spelled inside one markup)',
+    'C08_isalpha': 'isalpha iff non-empty and every pair an alphabetic character',
+    'C08_render': 'rendering with the tracing backend returns the string of pairs, for the object built from any tree',
+    'C08_history': 'every finite sequence of operations applied on top of one another equals the same sequence of list operations on the string of pairs (induction over the history; normal form is an invariant)',
+}
+LEVEL_TEXT = ('Machine-checked proofs (Lean 4) over an executable model that follows pybtex/richtext.py method by method: the constructor and '
+              'every operation (+, append, join, slicing for ALL integer bounds, indexing, upper/lower, capfirst, capitalize, add_period, '
+              'split at a one-character separator, isalpha, rendering) act on the denoted string of (atom, markup-stack) pairs exactly as '
+              'the corresponding list operation; normal forms are unique, so == coincides with "same class and same string of pairs" and '
+              'grouping/nesting never matters; all of it lifted to arbitrary finite operation histories by induction.  The model is tied to '
+              'the code by a correspondence check that compares, for every tree of an exhaustive small scope x every slice/index/operation '
+              'and for random histories, the normal-form tree, the rendering with a tracing backend, str, len and every result.')
+LEVEL_NOTE = ('Trusted: Lean kernel; axioms propext/Classical.choice/Quot.sound only; the model (Model/RichText.lean) corresponds to the code only as '
+              'far as the differential check explores; the reference semantics Spec/RichText.lean (sem, Flat.*, Abs.*) must be read and agreed '
+              'with. Proved for the model WITH the proposed fixes C08-1..5 applied (slice with stop<start, Symbol.__eq__, HRef.external, '
+              'IndexError, empty piece from split) -- on the unpatched tree the check reports these as violations. NOT proved: split at white '
+              'space (sep=None) and at multi-character separators for multipart texts (checked against the list semantics by the oracle only; '
+              'multi-character separators are matched part-wise by design); completeness of startswith/endswith/in (only soundness is proved; '
+              'exactness on normal forms is checked by the oracle); "operands are never modified" is checked on the implementation only '
+              '(the model is pure). Characters are ASCII / caseless symbols; the deprecated tag alias emph, regex separators, abbreviate(), '
+              'slices with a step and the deprecated pre-0.19 methods are outside the model.')
 RULE = ('one evaluation = one rich-text tree with a list of operations (fan: each applied to the tree; history: applied on top of '
         'one another); a slicetab operation evaluates every slice (i, j) in [-n-2, n+2]^2 plus the None bounds; '
         'non-trivial = the tree denotes a non-empty text; distinct by case JSON')
@@ -426,6 +462,7 @@ def oracle(case, impl_out, reply):
         if not a.get('f', True):
             fails.append('operands_never_modified: step %d (%s) changed one of its operands' % (i, name))
             break
+        cur_before = impl_out[0]['v'] if case.get('fan') else cur
         if isinstance(a.get('r'), dict) and 'exception' in a['r']:
             exp = {'value': _show(b['v']) if 'v' in b else None,
                    'res': '<table>' if isinstance(b.get('r'), dict) and 'idx' in b['r'] else b.get('r')}
@@ -437,7 +474,9 @@ def oracle(case, impl_out, reply):
         elif case.get('fan'):
             cur = impl_out[0]['v']
         if 'v' in b and a.get('v') != b['v']:
-            fails.append('%s: step %d (%s): %s' % (clause, i, json.dumps(op), _diff(a.get('v'), b['v'])))
+            if name == 'slice' and _stop_before_start(_show(cur_before).get('len', 0), op.get('i'), op.get('j')):
+                clause = 'slice_stop_before_start'
+            fails.append('%s: step %d (%s) on %r: %s' % (clause, i, json.dumps(op), _show(cur_before).get('sem'), _diff(a.get('v'), b['v'])))
             break
         if i == 0:
             continue
@@ -659,18 +698,19 @@ def regroupings(t):
     return out
 
 
-def fan_ops(t, light=False):
+def fan_ops(t, reduced=False):
+    """Every single-step operation tried on a tree; `reduced` (used for the large depth-2 family of the thorough tier):
+    the same operations with about half of the operands / separators / probes."""
     n = tree_len(t)
     ops = [{'o': 'slicetab', 'lo': -n - 2, 'hi': n + 2}, {'o': 'indextab', 'lo': -n - 2, 'hi': n + 2}]
     ops += [{'o': o} for o in _UNARY]
-    if light:
-        return ops
-    for sep in SEPS:
+    pick = (lambda l: l[::2]) if reduced else (lambda l: l)
+    for sep in pick(SEPS):
         for keep in (None, True, False):
             ops.append({'o': 'split', 'sep': sep, 'keep': keep, 'pick': None})
-    ops += [{'o': 'startswith', 'p': p} for p in PREFIXES] + [{'o': 'endswith', 'p': p} for p in PREFIXES]
-    ops += [{'o': 'contains', 's': s} for s in NEEDLES]
-    for x in OPERANDS:
+    ops += [{'o': 'startswith', 'p': p} for p in pick(PREFIXES)] + [{'o': 'endswith', 'p': p} for p in pick(PREFIXES)]
+    ops += [{'o': 'contains', 's': s} for s in pick(NEEDLES)]
+    for x in pick(OPERANDS):
         ops += [{'o': 'add', 'x': x}, {'o': 'radd', 'x': x}, {'o': 'append', 'x': x}, {'o': 'eq', 'x': x}]
     ops += [{'o': 'eq', 'x': x} for x in regroupings(t)]
     ops += [{'o': 'join', 'xs': []}, {'o': 'join', 'xs': ['a']}, {'o': 'join', 'xs': ['a', node(KINDS[1], ['b']), SYM]},
@@ -784,8 +824,10 @@ def gen_cases(tier, rng, info):
     trees1 = list(level1(tier))
     trees2 = list(level2(tier))
     trees3 = list(level3_samples())
-    for t in trees0 + trees1 + trees2 + trees3:
+    for t in trees0 + trees1 + trees3:
         cases.append({'op': 'richtext', 'tree': t, 'fan': True, 'ops': fan_ops(t)})
+    for t in trees2:
+        cases.append({'op': 'richtext', 'tree': t, 'fan': True, 'ops': fan_ops(t, reduced=(tier != 'quick'))})
     # second layer: a case-changing / period-adding operation first, then every slice of the result
     second = trees1 if tier != 'quick' else [t for t in trees1 if len(t['p']) <= 2]
     for t in second:
@@ -797,13 +839,13 @@ def gen_cases(tier, rng, info):
     info['scope'] = ('every tree in: %d leaves; %d depth-1 trees (6 kinds x <=3 parts over %r + one symbol; quick: 3 parts only over 4 leaves); %d depth-2 trees (%s); '
                      '%d depth-3 cascade shapes -- each x every slice (i, j) in [-n-2, n+2]^2 + None bounds x every index x every '
                      'operation (case, capfirst/capitalize, add_period, isalpha, %d split variants, %d prefixes/suffixes, %d needles, '
-                     '+/radd/append/== with %d operands, == with all regroupings, join); plus %d depth-1 trees x 5 unary operations '
-                     'followed by every slice of the result' % (
+                     '+/radd/append/== with %d operands, == with all regroupings, join; thorough: every second of these probes on the '
+                     'depth-2 family); plus %d depth-1 trees x 5 unary operations followed by every slice of the result' % (
                          len(trees0), len(trees1), STRS, len(trees2),
                          'quick: Text/Tag/Protected x <=2 children from 4 leaves + 24 inner nodes with <=1 part' if tier == 'quick' else
                          'thorough: 6 kinds x <=2 children from 3 leaves + 78 inner nodes with <=2 parts',
                          len(trees3), len(SEPS) * 3, len(PREFIXES), len(NEEDLES), len(OPERANDS), len(second)))
-    nrand = 4000 if tier == 'quick' else 150000
+    nrand = 4000 if tier == 'quick' else 100000
     for _ in range(nrand):
         cases.append(random_case(rng))
     return cases
